@@ -292,7 +292,10 @@ def declare(reg):
                  ret="tuple[str,str]", **T, note="assumed here (pure string builder; C07 states its grammar)")
     reg.contract(P, "Mailbox.check_set_haschildren_attr", params={"self": "ref:Mailbox"}, modifies=["self.attributes"], **T, note="assumed: only attributes")
     reg.contract("<proxy>", "ClientProxy.push", params={"self": "ref:ClientProxy", "data": "list[str]"}, yields=True, **T,
-                 ensures={"appended": "appended(self.g_out, old(self.g_out), data)"},
+                 ensures={"appended": "appended(self.g_out, old(self.g_out), data)",
+                          # direct (quantifier-free) consequences, for the string solver
+                          "len": "len(self.g_out) == len(old(self.g_out)) + len(data)",
+                          "last": "implies(len(data) > 0, self.g_out[len(self.g_out) - 1] == data[len(data) - 1])"},
                  modifies=["self.g_out"],
                  ghost={"varargs": "data"}, note="A-ASYNC: hands the data to the client's socket in order (ghost g_out records it)")
 
